@@ -53,6 +53,9 @@ def r1(ctx):
     if sends and sleeps:
         order = g.exists_path(sends[0][0].id, sleeps[0][0].id, avoid=[n.id for n in g.nodes if n.kind == "join"])
         ctx.check(order and sleeps[0][0].awaits, R, "search:order", m, lp, "send before the awaited sleep within one iteration (answers are collected during the sleep)", "sleep precedes send")
+        heads = [n.id for n in g.nodes if n.kind in ("join", "for") and n.ast is lp] + [g.exit.id]
+        listens = g.all_paths_pass(sends[0][0].id, heads, [sleeps[0][0].id], NONEXC)
+        ctx.check(listens, R, "search:listens-after-every-request", m, lp, "every request is followed by one interval of listening before the loop condition is evaluated again or the socket is closed (also the last request)", "a path leaves the iteration after sendto() without sleeping")
         txt = f.expand_text(sleeps[0][1].args[0], sleeps[0][0]) if sleeps[0][1].args else ""
         ctx.check(ctx.repo.try_fold(m, f.expand(sleeps[0][1].args[0], sleeps[0][0])) == 0.5 if sleeps[0][1].args else False, R, "search:spacing", m, sleeps[0][1], "sleep(_DISCOVERY_REQUEST_INTERVAL) = 0.5 s", txt)
         a0 = sends[0][1].args[0] if sends[0][1].args else None
@@ -188,6 +191,8 @@ def r2(ctx):
                 if isinstance(v, ast.Subscript):
                     got[k.arg] = ctx.repo.try_fold(m, v.slice)
         ctx.check(got == s["idx"], R, f"{gen}:decode:field-positions", m, dec.node, f"fields from parts {s['idx']}", str(got))
+        lenient = [c for c in ast.walk(dec.node) if isinstance(c, ast.Call) and isinstance(c.func, ast.Attribute) and c.func.attr == "decode" and any(k.arg == "errors" for k in c.keywords)]
+        ctx.check(not lenient, R, f"{gen}:decode:strict-text", m, (lenient[0] if lenient else dec.node), "text fields are decoded strictly: a datagram with invalid UTF-8 adds nothing (it must not become an entry that ends the search)", norm_text(lenient[0])[:100] if lenient else "")
         mt = m.get_class(f"{cls}DiscoveryDecoder").methods.get("match")
         rets = [x for x in ast.walk(mt) if isinstance(x, ast.Return)] if mt else []
         txt = norm_text(rets[0].value) if len(rets) == 1 else ""
@@ -281,6 +286,9 @@ def r5(ctx):
         ok = ok and skw.get("host") == "host" and skw.get("port") == "port" and skw.get("registry") == reg and ckw.get("airtouch_id") == "airtouch_id" and ckw.get("serial") == "serial" and ckw.get("name") == "name" and ckw.get("socket") == "socket"
         ctx.check(ok, R, f"{fn_name}:wiring", fm, cf, f"socket(host, port, {reg}) and {cls}(airtouch_id, serial, name, socket)", f"{skw} {ckw}")
     sf = fm.get_function("_search")
+    loops = [x for x in ast.walk(sf) if isinstance(x, (ast.For, ast.AsyncFor, ast.While))]
+    inside = [r for lp_ in loops for r in ast.walk(lp_) if isinstance(r, (ast.Return, ast.Break))]
+    ctx.check(bool(loops) and not inside, R, "_search:waits-for-every-discoverer", fm, (inside[0] if inside else sf), "the results of all discoverers are collected before returning (no return/break inside the collecting loop)", f"{type(inside[0]).__name__.lower()} inside the loop at line {inside[0].lineno}" if inside else "no loop")
     txt = norm_text(sf)
     ok = "at4_discovery.CONFIG" in txt and "at5_discovery.CONFIG" in txt and "remote_host=remote_host" in txt
     ctx.check(ok, R, "_search:both-configs", fm, sf, "both discovery configurations are searched, honouring remote_host", "a configuration is missing")
